@@ -45,6 +45,7 @@ type c31Scenario struct {
 	producers int
 	failures  bool // upstream write/dial failures are explorer choices
 	addrs     int  // resolved upstream addresses, split by the real newAddressPools (0 = 2)
+	dead      []string // addresses that refuse every connection (scripted, not a deviation)
 }
 
 func c31Scenarios(thorough bool) []c31Scenario {
@@ -82,6 +83,9 @@ func c31Scenarios(thorough bool) []c31Scenario {
 		c31Scenario{heavy: true, name: "one upstream address: burst over one buffer then idle", addrs: 1, arrivals: burst(bufferLen + 2)},
 		c31Scenario{heavy: true, name: "one upstream address: burst filling both buffers", addrs: 1, arrivals: burst(2*bufferLen + 5)},
 		c31Scenario{name: "three upstream addresses: sparse 3 x 300ms", addrs: 3, arrivals: g(0, 300*ms, 300*ms)},
+		// a sender whose pool holds a dead address must rotate to the live one ("plus reconnection time")
+		c31Scenario{name: "three upstream addresses, the first one dead: sparse 3 x 300ms", addrs: 3, dead: []string{"up1"}, arrivals: g(0, 300*ms, 300*ms)},
+		c31Scenario{name: "four upstream addresses, first of each pool dead: two packets", addrs: 4, dead: []string{"up1", "up3"}, arrivals: g(0, 0)},
 	)
 	two := c31Scenario{name: "two producers", producers: 2, arrivals: []c31Arrival{{0, 0}, {0, 1}, {300 * ms, 0}, {0, 1}}}
 	out = append(out, two)
@@ -108,14 +112,20 @@ type c31Conn struct {
 }
 
 type c31Upstream struct {
+	dead       map[string]bool
 	x          *mc.Exec
 	failures   bool
 	conns      []*c31Conn
 	failedData [][]byte // buffers whose Write was failed by the explorer
 	dialFails  int
+	deadDials  int
 }
 
 func (u *c31Upstream) dial(network, addr string) (net.Conn, error) {
+	if u.dead[addr] {
+		u.deadDials++
+		return nil, vnet.ErrInjected
+	}
 	if u.failures && vsched.Self() != nil && u.x.Choose(2, "dial fails") == 1 {
 		u.dialFails++
 		return nil, vnet.ErrInjected
@@ -163,7 +173,10 @@ type c31Accepted struct {
 }
 
 func c31RunScenario(x *mc.Exec, sc c31Scenario, rep *mc.Report) mc.Verdict {
-	up := &c31Upstream{x: x, failures: sc.failures}
+	up := &c31Upstream{x: x, failures: sc.failures, dead: map[string]bool{}}
+	for _, a := range sc.dead {
+		up.dead[a] = true
+	}
 	vnet.DialHook = up.dial
 	defer func() { vnet.DialHook = nil }()
 	var accepted []c31Accepted
@@ -397,7 +410,7 @@ func c31Check(up *c31Upstream, sc c31Scenario, accepted []c31Accepted, refused [
 			// the packet whose own write was failed by the upstream may be lost (the code documents "not resend");
 			// every other accepted packet must be upstream by now even though nothing else arrived
 			fail("C31:accepted-packet-not-forwarded", fmt.Sprintf("packet %d accepted at %v is still not upstream %v later although nothing else arrives", a.id, a.at, 4*time.Second))
-		case seen[a.id] == 1 && !sc.failures:
+		case seen[a.id] == 1 && !sc.failures && len(sc.dead) == 0:
 			// promptness: about one second (swap wait) when the upstream is healthy
 			if d := deliveredAt[a.id] - a.at; d > swapWaitMax+50*time.Millisecond {
 				fail("C31:late", fmt.Sprintf("packet %d forwarded %v after acceptance (limit %v)", a.id, d, swapWaitMax))
